@@ -281,7 +281,7 @@ def write_replay(summary, seed, index, tag='known'):
 
 
 def finding_signature(trace, v):
-    if trace['world'].get('allow_misaligned') and v['clause'].startswith('W3'):
+    if trace['world'].get('allow_misaligned') and (v['clause'].startswith('W3') or v['clause'] == 'W2-draggable-index'):
         return 'W3:array-valued-multivector-at-top-level'
     return v['clause']
 
